@@ -1,6 +1,6 @@
 //go:build verif
 
-package cache
+package cache_test
 
 import (
 	"bytes"
@@ -18,6 +18,7 @@ import (
 	"testing"
 	"time"
 
+	"github.com/containerd/stargz-snapshotter/cache"
 	"github.com/containerd/stargz-snapshotter/internal/verifutil"
 )
 
@@ -139,7 +140,8 @@ func (g *verifReg) classify(key int, got []byte) (string, string) {
 		sort.Ints(keys)
 		for _, k2 := range keys {
 			for _, r := range g.byKey[k2] {
-				if bytes.Equal(r.data, got) || (len(got) >= 8 && bytes.HasPrefix(r.data, got)) {
+				if bytes.Equal(r.data, got) || (len(got) >= 8 && bytes.HasPrefix(r.data, got)) ||
+					(len(r.data) >= 8 && bytes.HasPrefix(got, r.data)) {
 					return "hit-other-key", fmt.Sprintf("got %s which belongs to key %d (writer %d)", verifDescribe(got), k2, r.wid)
 				}
 			}
@@ -149,6 +151,17 @@ func (g *verifReg) classify(key int, got []byte) (string, string) {
 		if r.status == verifStAborted && len(got) > 0 && bytes.HasPrefix(r.data, got) {
 			return "aborted-visible", fmt.Sprintf("got %s = data of ABORTED writer %d", verifDescribe(got), r.wid)
 		}
+	}
+	for _, rs := range g.byKey { // an aborted writer's bytes followed by something else
+		for _, r := range rs {
+			if r.status == verifStAborted && len(r.data) >= 4 && len(got) > len(r.data) && bytes.HasPrefix(got, r.data) {
+				return "aborted-visible", fmt.Sprintf("got %s which starts with the %d bytes of ABORTED writer %d of key %d",
+					verifDescribe(got), len(r.data), r.wid, r.key)
+			}
+		}
+	}
+	if n := bytes.Count(got, []byte{0xDB, 0xDB, 0xDB, 0xDB}); n > 0 && len(got) >= 4 {
+		return "recycled-buffer-visible", fmt.Sprintf("got %s containing the poison written into POOLED buffers", verifDescribe(got))
 	}
 	for _, r := range recs {
 		if r.status == verifStOpen && bytes.HasPrefix(r.data, got) {
@@ -161,7 +174,7 @@ func (g *verifReg) classify(key int, got []byte) (string, string) {
 // ---- reading ---------------------------------------------------------------------------------
 
 // verifReadWhole reads everything behind r with one ReadAt into buf (which is larger than any value).
-func verifReadWhole(r Reader, buf []byte) ([]byte, error) {
+func verifReadWhole(r cache.Reader, buf []byte) ([]byte, error) {
 	n, err := r.ReadAt(buf, 0)
 	if err != nil && err != io.EOF {
 		return nil, err
@@ -172,7 +185,7 @@ func verifReadWhole(r Reader, buf []byte) ([]byte, error) {
 	return buf[:n], nil
 }
 
-func verifSrcKind(r Reader) string {
+func verifSrcKind(r cache.Reader) string {
 	switch r.GetReaderAt().(type) {
 	case *bytes.Reader:
 		return "mem"
@@ -194,6 +207,60 @@ func verifHex(b []byte) string {
 		return "-"
 	}
 	return hex.EncodeToString(b)
+}
+
+// ---- use-after-recycle poisoning --------------------------------------------------------------
+
+// verifPool is handed to the cache as DirectoryCacheConfig.BufPool.  poison() takes every buffer that
+// currently sits in the pool, overwrites the unused part of its backing array (everything beyond Len())
+// with 0xDB and puts it back.  A pooled buffer is referenced by nobody, so this is invisible -- unless a
+// reader still looks at a buffer that was recycled under it: then it sees 0xDB at once, without having to
+// wait for another writer to reuse that very buffer.
+type verifPool struct {
+	p    *sync.Pool
+	news int64
+}
+
+func verifNewPool() *verifPool {
+	vp := &verifPool{}
+	vp.p = &sync.Pool{New: func() any {
+		atomic.AddInt64(&vp.news, 1)
+		return new(bytes.Buffer)
+	}}
+	return vp
+}
+
+func (vp *verifPool) poison() int {
+	if vp == nil {
+		return 0
+	}
+	var got []*bytes.Buffer
+	for i := 0; i < 64; i++ {
+		before := atomic.LoadInt64(&vp.news)
+		b := vp.p.Get().(*bytes.Buffer)
+		if atomic.LoadInt64(&vp.news) != before {
+			break // the pool was empty (b is brand new; dropped)
+		}
+		got = append(got, b)
+	}
+	for _, b := range got {
+		d := b.Bytes()
+		free := d[len(d):cap(d)]
+		for i := range free {
+			free[i] = 0xDB
+		}
+	}
+	for i := len(got) - 1; i >= 0; i-- {
+		vp.p.Put(got[i])
+	}
+	return len(got)
+}
+
+func (vp *verifPool) cfg() *sync.Pool {
+	if vp == nil {
+		return nil
+	}
+	return vp.p
 }
 
 // ---- RLIMIT_FSIZE: make every file write fail for the duration of f ---------------------------
@@ -218,7 +285,7 @@ func verifNoSpace(f func()) bool {
 // ---- part 1: sequential histories ------------------------------------------------------------
 
 type verifSeqW struct {
-	w      Writer
+	w      cache.Writer
 	key    int
 	id     int
 	direct bool
@@ -229,7 +296,7 @@ type verifSeqW struct {
 }
 
 type verifSeqR struct {
-	r      Reader
+	r      cache.Reader
 	key    int
 	id     int
 	whole  []byte
@@ -239,10 +306,11 @@ type verifSeqR struct {
 type verifSeq struct {
 	t     *testing.T
 	out   *verifutil.Out
-	c     BlobCache
+	c     cache.BlobCache
 	mem   bool
 	cfgD  bool
 	reg   *verifReg
+	pool  *verifPool
 	ws    []*verifSeqW
 	rs    []*verifSeqR
 	buf   []byte
@@ -252,18 +320,19 @@ type verifSeq struct {
 
 func (h *verifSeq) fail(sig, what string) { h.out.Fail(sig, h.desc+": "+what) }
 
-func verifOpts(direct, pass bool) []Option {
-	var o []Option
+func verifOpts(direct, pass bool) []cache.Option {
+	var o []cache.Option
 	if direct {
-		o = append(o, Direct())
+		o = append(o, cache.Direct())
 	}
 	if pass {
-		o = append(o, PassThrough())
+		o = append(o, cache.PassThrough())
 	}
 	return o
 }
 
 func (h *verifSeq) add(key int, direct, pass bool) *verifSeqW {
+	h.pool.poison()
 	op := fmt.Sprintf("add %d %s %s", key, verifB(direct), verifB(pass))
 	w, err := h.c.Add(verifKey(key), verifOpts(direct, pass)...)
 	if err != nil {
@@ -281,6 +350,7 @@ func (h *verifSeq) add(key int, direct, pass bool) *verifSeqW {
 }
 
 func (h *verifSeq) write(sw *verifSeqW, n int) {
+	h.pool.poison()
 	p := verifValue(sw.key, sw.id, sw.n+n)[sw.n:]
 	op := fmt.Sprintf("write %d %s", sw.id, verifHex(p))
 	m, err := sw.w.Write(p)
@@ -297,6 +367,7 @@ func (h *verifSeq) write(sw *verifSeqW, n int) {
 }
 
 func (h *verifSeq) commit(sw *verifSeqW, nospace bool) {
+	h.pool.poison()
 	h.reg.set(sw.rec, verifStCommitted, verifValue(sw.key, sw.id, sw.n)) // visible from the CALL on
 	var err error
 	if nospace {
@@ -322,6 +393,7 @@ func (h *verifSeq) commit(sw *verifSeqW, nospace bool) {
 }
 
 func (h *verifSeq) abort(sw *verifSeqW) {
+	h.pool.poison()
 	err := sw.w.Abort()
 	h.reg.set(sw.rec, verifStAborted, nil)
 	sw.state = verifStAborted
@@ -339,6 +411,7 @@ func (h *verifSeq) wclose(sw *verifSeqW) {
 }
 
 func (h *verifSeq) get(key int, direct, pass bool) *verifSeqR {
+	h.pool.poison()
 	op := fmt.Sprintf("get %d %s %s", key, verifB(direct), verifB(pass))
 	r, err := h.c.Get(verifKey(key), verifOpts(direct, pass)...)
 	if err != nil {
@@ -372,6 +445,7 @@ func (h *verifSeq) get(key int, direct, pass bool) *verifSeqR {
 }
 
 func (h *verifSeq) read(sr *verifSeqR, off, n int) {
+	h.pool.poison()
 	op := fmt.Sprintf("read %d %d %d", sr.id, off, n)
 	p := make([]byte, n)
 	m, err := sr.r.ReadAt(p, int64(off))
@@ -430,18 +504,25 @@ func (h *verifSeq) finish() {
 }
 
 func verifNewSeq(t *testing.T, out *verifutil.Out, base string, n int, mem bool, mc, fc int, cfgD, fadv bool) *verifSeq {
+	return verifNewSeqPool(t, out, base, n, mem, mc, fc, cfgD, fadv, true)
+}
+
+func verifNewSeqPool(t *testing.T, out *verifutil.Out, base string, n int, mem bool, mc, fc int, cfgD, fadv, ownPool bool) *verifSeq {
 	h := &verifSeq{t: t, out: out, mem: mem, cfgD: cfgD && !mem, reg: verifNewReg(), buf: make([]byte, 4096)}
 	if mem {
 		h.desc = fmt.Sprintf("h%d mem", n)
 		out.Comment(h.desc)
-		h.c = NewMemoryCache()
+		h.c = cache.NewMemoryCache()
 		out.Emit("new mem", "ok")
 		return h
 	}
 	h.desc = fmt.Sprintf("h%d dir mem=%d fd=%d direct=%v fadv=%v", n, mc, fc, cfgD, fadv)
 	out.Comment(h.desc)
-	c, err := NewDirectoryCache(filepath.Join(base, fmt.Sprintf("h%d", n)), DirectoryCacheConfig{
-		MaxLRUCacheEntry: mc, MaxCacheFds: fc, SyncAdd: true, Direct: cfgD, FadvDontNeed: fadv})
+	if ownPool {
+		h.pool = verifNewPool()
+	}
+	c, err := cache.NewDirectoryCache(filepath.Join(base, fmt.Sprintf("h%d", n)), cache.DirectoryCacheConfig{
+		MaxLRUCacheEntry: mc, MaxCacheFds: fc, SyncAdd: true, Direct: cfgD, FadvDontNeed: fadv, BufPool: h.pool.cfg()})
 	if err != nil {
 		t.Fatalf("NewDirectoryCache: %v", err)
 	}
@@ -624,6 +705,52 @@ func verifScripted(t *testing.T, out *verifutil.Out, base string, hn *int) {
 	}
 	h.finish()
 
+	// 7. overlapping writers of ONE key whose data goes straight to their wip files (Direct option and
+	// Direct configuration): each writer has its own file, whoever commits publishes only its own bytes
+	for _, cfgD := range []bool{false, true} {
+		h = next(false, 1, 1, cfgD)
+		w1 := h.add(5, true, false)
+		if w1 != nil {
+			h.write(w1, 40)
+		}
+		w2 := h.add(5, true, false) // second writer of the same key, still open while w1 commits
+		if w1 != nil && w2 != nil {
+			h.write(w2, 10)
+			h.commit(w1, false)
+			h.get(5, false, false) // exactly w1's 40 bytes
+			h.write(w2, 7)
+			h.get(5, true, false)
+			h.abort(w2)
+			h.get(5, false, false) // still w1's
+			w3 := h.add(5, true, false)
+			w4 := h.add(5, false, false) // a memory writer (direct under the Direct configuration) of the same key
+			if w3 != nil && w4 != nil {
+				h.write(w3, 21)
+				h.write(w4, 23)
+				h.write(w3, 2)
+				h.commit(w4, false)
+				h.get(5, true, false)
+				h.commit(w3, false)
+				h.get(5, true, false)
+				h.get(5, false, false)
+			}
+		}
+		h.finish()
+	}
+	// memory writers of one key, one aborted with data in its buffer before the other starts
+	h = next(false, 2, 2, false)
+	wa := h.add(1, false, false)
+	if wa != nil {
+		h.write(wa, 30)
+		h.abort(wa)
+		h.wclose(wa)
+	}
+	h.put(2, 17, false, 1) // takes the buffer the aborted writer gave back
+	h.get(2, false, false)
+	h.get(2, true, false)
+	h.get(1, false, false)
+	h.finish()
+
 	// 6. default capacities (0 => 10) with 12 keys
 	h = next(false, 0, 0, false)
 	for k := 0; k < 12; k++ {
@@ -648,7 +775,7 @@ func verifRandomHistory(t *testing.T, out *verifutil.Out, rnd *verifutil.Rand, b
 	mem := rnd.Intn(7) == 0
 	mc, fc := 1+rnd.Intn(3), 1+rnd.Intn(3)
 	cfgD := rnd.Intn(8) == 0
-	h := verifNewSeq(t, out, base, n, mem, mc, fc, cfgD, rnd.Intn(4) == 0)
+	h := verifNewSeqPool(t, out, base, n, mem, mc, fc, cfgD, rnd.Intn(4) == 0, rnd.Intn(5) > 0)
 	nkeys := mc
 	if fc > nkeys {
 		nkeys = fc
@@ -766,7 +893,7 @@ func verifRandomHistory(t *testing.T, out *verifutil.Out, rnd *verifutil.Rand, b
 // ---- part 2: concurrent stress, oracle only --------------------------------------------------
 
 type verifHeld struct {
-	r     Reader
+	r     cache.Reader
 	key   int
 	whole []byte
 	kind  string
@@ -784,14 +911,18 @@ func verifStressRound(t *testing.T, out *verifutil.Out, rnd *verifutil.Rand, bas
 	desc := fmt.Sprintf("stress round %d: mem=%v caps=%d/%d syncAdd=%v fadv=%v keys=%d goroutines=%d direct%%=%d big=%v",
 		round, mem, mc, fc, syncAdd, fadv, nkeys, ng, pDirect, big)
 	out.Comment(desc)
-	var c BlobCache
+	var c cache.BlobCache
+	var pool *verifPool
 	dir := filepath.Join(base, fmt.Sprintf("s%d", round))
 	if mem {
-		c = NewMemoryCache()
+		c = cache.NewMemoryCache()
 	} else {
 		var err error
-		c, err = NewDirectoryCache(dir, DirectoryCacheConfig{MaxLRUCacheEntry: mc, MaxCacheFds: fc,
-			SyncAdd: syncAdd, FadvDontNeed: fadv})
+		if rnd.Intn(4) > 0 {
+			pool = verifNewPool()
+		}
+		c, err = cache.NewDirectoryCache(dir, cache.DirectoryCacheConfig{MaxLRUCacheEntry: mc, MaxCacheFds: fc,
+			SyncAdd: syncAdd, FadvDontNeed: fadv, BufPool: pool.cfg()})
 		if err != nil {
 			t.Fatalf("NewDirectoryCache: %v", err)
 		}
@@ -952,7 +1083,26 @@ func verifStressRound(t *testing.T, out *verifutil.Out, rnd *verifutil.Rand, bas
 			}
 		}(g)
 	}
+	stop := make(chan struct{})
+	var pwg sync.WaitGroup
+	if pool != nil { // keeps scribbling over whatever sits in the pool
+		pwg.Add(1)
+		go func() {
+			defer pwg.Done()
+			for {
+				select {
+				case <-stop:
+					return
+				default:
+				}
+				pool.poison()
+				time.Sleep(100 * time.Microsecond)
+			}
+		}()
+	}
 	wg.Wait()
+	close(stop)
+	pwg.Wait()
 	if !mem {
 		// background commits: wait until no wip file is left, then look at every key once more
 		deadline := time.Now().Add(10 * time.Second)
